@@ -22,12 +22,13 @@ def gen(ctx, n):
         cases.append({'seed': r.randint(0, 10**6), 'acc': acc, 'inner': r.choice(['sgd', 'sgd_mom', 'adam']),
                       'sched_n': sched_n, 'sched_c': r.choice(['none', 'none', 'exp', 'step', 'lambda']),
                       'mode': r.choice(['hooks', 'hooks', 'ghost', 'functorch']), 'n': nsteps, 'cut': r.randint(0, nsteps),
-                      'sigma': r.choice([0.8, 1.0, 1.3]), 'C': r.choice([0.5, 1.0]), 'pass_opt': r.random() < 0.85, 'save_opt': True})
+                      'sigma': r.choice([0.8, 1.0, 1.3]), 'C': r.choice([0.5, 1.0]), 'pass_opt': r.random() < 0.85, 'save_opt': True,
+                      'early_save': r.choice([None, 0, 1])})
     # every cut point of one longer history, per accountant
     for acc in (ACCS if ctx.thorough else ACCS[:2]):
         for cut in range(0, 6):
             cases.append({'seed': 11, 'acc': acc, 'inner': 'adam', 'sched_n': 'none', 'sched_c': 'none', 'mode': 'hooks', 'n': 5, 'cut': cut,
-                          'sigma': 1.0, 'C': 1.0, 'pass_opt': True, 'save_opt': True})
+                          'sigma': 1.0, 'C': 1.0, 'pass_opt': True, 'save_opt': True, 'early_save': 1 if cut >= 3 else None})
     return cases
 
 
